@@ -21,10 +21,13 @@ THEOREMS = {
         "foreach_events", "foreach_once", "foreach_stop", "clear_spec", "clear_reinit",
         # histories against the multiset specification
         "btStep_refines", "rbStep_refines", "bt_run_refines", "rb_run_refines", "bt_badOp_only_if_held",
+        # two trees with swap
+        "pairRun_refines", "bt_pair_run_refines", "rb_pair_run_refines",
     )],
     "C02": [_T + n for n in (
         "inv_iff_bal", "rbInsert_inv", "rbInsertAt_inv", "rbErase_inv", "sibling_exists",
         "height_bound", "height_log_bound", "rbStep_inv", "run_inv", "run_no_segv", "run_height_bound",
+        "rb_pair_run_refines", "rb_pair_run_inv",
     )],
     "C08": [_T + n for n in (
         "mapInsert_existing", "mapInsert_fail", "mapInsert_new", "mapFind_spec", "mapEraseNode_spec",
